@@ -2,6 +2,7 @@ import Orx.Basic
 import Orx.KSFault
 import Orx.IW.FullLedgerRun
 import Orx.GenThms.Own
+import Orx.GenThms.Surface
 /-! # C15 No leaks: consumed collections and internal buffers are released
 
 Allocation ledger of the consuming kinds, written from the (fixed) source: which heap blocks a life-cycle
@@ -188,5 +189,15 @@ theorem source_array_into_seq_balanced (N f : Nat) (k : Option Nat) (o : OSt) (Ï
   split <;> simp only [Balanced] <;> intro role <;> simpa [hh] using key role
 
 end Source
+
+section Surface
+open Orx.GenThms.Surface
+
+/-- the crate's destructors are exactly those the balance theorems cover -/
+theorem source_destructors_are_the_modelled_ones :
+    sameSet (implsOf "Drop") ["ConIterOfArray", "ConIterOfVec", "Taken", "CompleteOnUnwind"] = true :=
+  Orx.GenThms.Surface.the_destructors
+
+end Surface
 
 end Orx.Props.C15
